@@ -8,6 +8,7 @@ from typing import Any, NamedTuple
 from xsdata.utils.dates import (
     calculate_offset,
     calculate_timezone,
+    date_ordinal,
     format_date,
     format_offset,
     format_time,
@@ -493,9 +494,29 @@ DurationType = XmlTime | XmlDateTime
 
 def _cmp(a: DurationType, b: DurationType, op: Callable) -> bool:
     if isinstance(b, a.__class__):
-        return op(a.duration, b.duration)
+        return op(_timeline(a), _timeline(b))
 
     return NotImplemented
+
+
+def _timeline(obj: DurationType) -> int:
+    """Return the exact position on the timeline in nanoseconds.
+
+    The float durations are approximations, e.g. all months last 2629743
+    seconds, they can't order or equate two values reliably.
+    """
+    days = 0
+    if isinstance(obj, XmlDateTime):
+        days = date_ordinal(obj.year, obj.month, obj.day)
+
+    seconds = (
+        days * DS_DAY
+        + obj.hour * DS_HOUR
+        + obj.minute * DS_MINUTE
+        + obj.second
+        + (obj.offset or 0) * DS_OFFSET
+    )
+    return seconds * 1_000_000_000 + obj.fractional_second
 
 
 class TimeInterval(NamedTuple):
